@@ -46,12 +46,12 @@ type tierCfg struct {
 }
 
 type propCfg struct {
-	ID       string
-	Harness  string
-	Quick    tierCfg
-	Thorough tierCfg
-	Rule     string
-	Assume   []string
+	ID         string
+	Harness    string
+	Quick      tierCfg
+	Thorough   tierCfg
+	Rule       string
+	Assume     []string
 	Components map[string]string
 }
 
@@ -180,51 +180,54 @@ func buildScratch() (*scratch, error) {
 }
 
 var shimPlan = map[string][]string{
-	"pkg/io":      {"os", "time", "math/rand"},
-	"pkg/exec":    {"os", "math/rand", "time"},
-	"pkg/runtime": {"os", "math/rand", "time"},
-	"pkg/value":   {"os", "math/rand", "time"},
-	"pkg/common":  {"os", "math/rand", "time"},
-	"stdlib/file": {"os", "time", "math/rand"},
-	"stdlib/json": {"os", "time", "math/rand"},
-	"pkg/server":  {"os", "os/exec", "net", "time", "log", "os/signal", "syscall", "math/rand"},
+	"pkg/io":        {"os", "time", "math/rand", "sync"},
+	"pkg/exec":      {"os", "math/rand", "time", "sync"},
+	"pkg/runtime":   {"os", "math/rand", "time", "sync"},
+	"pkg/value":     {"os", "math/rand", "time", "sync"},
+	"pkg/common":    {"os", "math/rand", "time", "sync"},
+	"stdlib/file":   {"os", "time", "math/rand", "sync"},
+	"stdlib/json":   {"os", "time", "math/rand", "sync"},
+	"pkg/syntax":    {"os", "time", "math/rand", "sync"},
+	"pkg/syntax/zh": {"os", "time", "math/rand", "sync"},
+	"pkg/error":     {"os", "time", "math/rand", "sync"},
+	"pkg/server":    {"os", "os/exec", "net", "time", "log", "os/signal", "syscall", "math/rand", "sync"},
 }
 
-var yieldPlan = map[string]bool{"pkg/server": true, "pkg/exec": true, "pkg/runtime": true}
+var yieldPlan = map[string]bool{"pkg/server": true, "pkg/exec": true, "pkg/runtime": true, "pkg/io": true}
 var t4Plan = map[string]bool{"pkg/exec": true, "pkg/runtime": true, "pkg/value": true, "pkg/common": true, "pkg/server": true, "pkg/io": true, "stdlib/json": true, "stdlib/file": true}
 
 // ---------------------------------------------------------------- check
 
 type violation struct {
-	Property   string          `json:"property"`
-	Signature  string          `json:"signature"`
-	Detail     string          `json:"detail"`
-	Seed       uint64          `json:"seed"`
-	Run        int             `json:"run"`
+	Property   string            `json:"property"`
+	Signature  string            `json:"signature"`
+	Detail     string            `json:"detail"`
+	Seed       uint64            `json:"seed"`
+	Run        int               `json:"run"`
 	Params     map[string]string `json:"params,omitempty"`
-	Decisions  []uint32        `json:"decisions"`
-	OrigLen    int             `json:"orig_decisions"`
-	Scenario   json.RawMessage `json:"scenario"`
-	Trace      []string        `json:"trace"`
-	ShrinkRuns int             `json:"shrink_runs"`
-	Count      int             `json:"count"`
-	TreeHash   string          `json:"tree_hash,omitempty"`
+	Decisions  []uint32          `json:"decisions"`
+	OrigLen    int               `json:"orig_decisions"`
+	Scenario   json.RawMessage   `json:"scenario"`
+	Trace      []string          `json:"trace"`
+	ShrinkRuns int               `json:"shrink_runs"`
+	Count      int               `json:"count"`
+	TreeHash   string            `json:"tree_hash,omitempty"`
 }
 
 type result struct {
-	Property   string             `json:"property"`
-	Runs       int                `json:"runs"`
-	Evals      int                `json:"evals"`
-	NonTrivial int                `json:"nontrivial"`
-	Keys       []string           `json:"keys"`
-	Violations []*violation       `json:"violations"`
-	Faults     map[string]int     `json:"faults"`
-	Probes     map[string]int     `json:"probes"`
-	Note       map[string]int     `json:"note"`
-	Samples    []json.RawMessage  `json:"samples"`
-	SimSeconds float64            `json:"sim_seconds"`
-	WallS      float64            `json:"wall_s"`
-	Digests    map[string]string  `json:"digests"`
+	Property   string            `json:"property"`
+	Runs       int               `json:"runs"`
+	Evals      int               `json:"evals"`
+	NonTrivial int               `json:"nontrivial"`
+	Keys       []string          `json:"keys"`
+	Violations []*violation      `json:"violations"`
+	Faults     map[string]int    `json:"faults"`
+	Probes     map[string]int    `json:"probes"`
+	Note       map[string]int    `json:"note"`
+	Samples    []json.RawMessage `json:"samples"`
+	SimSeconds float64           `json:"sim_seconds"`
+	WallS      float64           `json:"wall_s"`
+	Digests    map[string]string `json:"digests"`
 }
 
 type finding struct {
@@ -525,28 +528,28 @@ func writeEvidence(pc *propCfg, tier string, seed uint64, tc tierCfg, s *scratch
 	}
 	sort.Strings(zeroProbes)
 	cov := map[string]interface{}{
-		"evaluations":           m.Evals,
-		"distinct_nontrivial":   len(m.Keys),
-		"rule":                  pc.Rule,
-		"samples":               samples,
-		"simulated_runs":        m.Runs,
-		"nontrivial_runs":       m.NonTrivial,
-		"base_seeds":            tc.Seeds,
-		"processes":             tc.Procs,
-		"runs_per_hour":         runsPerHour,
-		"seeds_per_hour":        runsPerHour, // every run has its own seed: Mix(base seed, run index)
-		"seed_derivation":       "run i of base seed s uses tape seed splitmix(s ^ (i+1)*0xd6e8feb86659fd93); base seeds = VERIF_SEED + k*1000003",
-		"simulated_seconds":     m.SimSeconds,
-		"faults_fired":          m.Faults,
-		"reach_probes":          m.Probes,
-		"probes_never_hit":      zeroProbes,
-		"counters":              m.Note,
-		"known_findings_seen":   knownSeen,
-		"components":            pc.Components,
-		"tree_hash":             s.TreeHash,
-		"transform":             map[string]interface{}{"map_range_sites": s.Report.MapSites, "files_rewritten": s.Report.Files, "shimmed_files": s.Report.ShimFiles, "go_sites": s.Report.GoSites, "chan_sites": s.Report.ChanSites, "yield_sites": s.Report.YieldSites, "access_sites": s.Report.AccessSites},
-		"build_s":               s.BuildS,
-		"exhaustive":            false,
+		"evaluations":         m.Evals,
+		"distinct_nontrivial": len(m.Keys),
+		"rule":                pc.Rule,
+		"samples":             samples,
+		"simulated_runs":      m.Runs,
+		"nontrivial_runs":     m.NonTrivial,
+		"base_seeds":          tc.Seeds,
+		"processes":           tc.Procs,
+		"runs_per_hour":       runsPerHour,
+		"seeds_per_hour":      runsPerHour, // every run has its own seed: Mix(base seed, run index)
+		"seed_derivation":     "run i of base seed s uses tape seed splitmix(s ^ (i+1)*0xd6e8feb86659fd93); base seeds = VERIF_SEED + k*1000003",
+		"simulated_seconds":   m.SimSeconds,
+		"faults_fired":        m.Faults,
+		"reach_probes":        m.Probes,
+		"probes_never_hit":    zeroProbes,
+		"counters":            m.Note,
+		"known_findings_seen": knownSeen,
+		"components":          pc.Components,
+		"tree_hash":           s.TreeHash,
+		"transform":           map[string]interface{}{"map_range_sites": s.Report.MapSites, "files_rewritten": s.Report.Files, "shimmed_files": s.Report.ShimFiles, "go_sites": s.Report.GoSites, "chan_sites": s.Report.ChanSites, "yield_sites": s.Report.YieldSites, "access_sites": s.Report.AccessSites},
+		"build_s":             s.BuildS,
+		"exhaustive":          false,
 	}
 	ev := map[string]interface{}{
 		"property_id": pc.ID,
